@@ -48,6 +48,61 @@ type observer struct {
 	it *pdrv.Interp
 }
 
+const staleETag = "00000000000000000000000000000000"
+
+// execBulk executes a bulk delete {op: DeleteObjects, b, entries: [{k, cond}]} THROUGH the replication
+// storage (pdrv's interpreter has no such call) and emits the event in pdrv's format plus "entries" =
+// the per-entry results.  cond: none | ifm-cur (the ETag HeadObject reports for the key right now, a
+// stale one if there is no object) | ifm-stale.
+func execBulk(it *pdrv.Interp, st storage.Storage, c pdrv.Call) {
+	ctx := context.Background()
+	b := it.RealBucket(c["b"].(string))
+	var in []storage.DeleteObjectsInputEntry
+	var syms []string
+	for _, x := range c["entries"].([]any) {
+		e := x.(map[string]any)
+		ks, cond := e["k"].(string), e["cond"].(string)
+		ent := storage.DeleteObjectsInputEntry{Key: it.RealKey(ks)}
+		switch cond {
+		case "ifm-stale":
+			s := staleETag
+			ent.IfMatchETag = &s
+		case "ifm-cur":
+			s := staleETag
+			if o, err := st.HeadObject(ctx, b, ent.Key, nil); err == nil && o != nil {
+				s = o.ETag
+			}
+			ent.IfMatchETag = &s
+		}
+		in = append(in, ent)
+		syms = append(syms, ks)
+	}
+	res := map[string]any{"err": "", "vid": -1, "dm": false, "uid": -1}
+	ev := map[string]any{"call": map[string]any(c), "res": res, "fault": "none"}
+	r, err := st.DeleteObjects(ctx, b, in)
+	res["err"] = pdrv.ErrKind(err)
+	ents := []any{}
+	if err == nil && r != nil {
+		for i, e := range r.Entries {
+			k := strings.TrimPrefix(e.Key.String(), "key/")
+			if i < len(syms) && k != syms[i] {
+				k = "?order:" + k
+			}
+			// number the ids the call created in entry order (the order in which the model hands them out)
+			if e.DeleteMarkerVersionID != nil {
+				it.ModelVid(*e.DeleteMarkerVersionID)
+			}
+			ents = append(ents, map[string]any{"k": k, "deleted": e.Deleted, "code": e.ErrCode})
+		}
+	}
+	ev["entries"] = ents
+	ev["views"] = it.Views(st)
+	if it.Hook != nil {
+		it.Hook(ev)
+	}
+	it.W.Emit(ev)
+}
+
 func main() {
 	if len(os.Args) < 6 || os.Args[1] != "run" {
 		must(fmt.Errorf("usage: replication run <primary:sec1[,sec2]> <dir> <programs> <trace>"))
@@ -102,6 +157,10 @@ func main() {
 			o.it.Reset(p.ID)
 		}
 		for _, c := range p.Calls {
+			if op, _ := c["op"].(string); op == "DeleteObjects" {
+				execBulk(it, rs, c)
+				continue
+			}
 			it.Exec(c)
 		}
 		n++
